@@ -398,6 +398,22 @@ def drv_interleaved(ctx: Ctx, sub: SubCheck):
                 ctx.tally.case(sub.name, key=case, nontrivial=True, cls="directed_reserved_then_" + follow)
 
 
+# Preludes (vp/core.py): between the two judgements of a case every sibling of the two Hamming codes BPTC(196,96) is built
+# on - all five Hamming classes share HammingCommon - repairs a single error of its own, and half of the generic prelude
+# calls come from the block-code / BPTC groups of the C19 catalogue (seeded change C02-7: a repair table shared by all
+# Hamming classes and keyed on the code dimension, which (15,11,3) and (16,11,4) have in common).
+PRELUDE_GROUPS = ("fec", "bptc")
+_SIBLING_CODES = {"h743": 4, "h1393": 9, "h15113": 11, "h16114": 11, "h17123": 12}
+
+
+def prelude_for(sub, case, rng):
+    calls = []
+    for code, k in _SIBLING_CODES.items():
+        bits = "".join(rng.choice("01") for _ in range(k))
+        calls.append({"e": "hamming.encode_then_repair", "a": {"cb": {"code": code, "bits": bits}, "flip": rng.randrange(17)}})
+    return calls
+
+
 SUBCHECKS = [
     SubCheck("containers", oracle_containers, drv_containers, "message / received word in little-endian or frozen bitarrays and numpy arrays: same results as the bit sequence demands"),
     SubCheck("interleaved", oracle_interleaved, drv_interleaved, "histories of encode / decode / repair calls over a small pool (errors biased to the reserved positions): every call gives its reference result"),
